@@ -177,6 +177,16 @@ def judge(lines, info, traj, run: Run, recs, ended):
                     p_ = info[p_]["parent"]
                 if p_ != li["idx"] or any(nm in ("Watch", "Alarm") for nm in chain):
                     continue
+                # a line that follows an End block / End blocks in the same body (at its own level or at the level of one of its
+                # ancestors inside the alarm) is cut off by it and rightly never runs
+                cut, n_ = False, bl
+                while n_["idx"] != li["idx"]:
+                    if any(sb["parent"] == n_["parent"] and sb["idx"] < n_["idx"] and sb["name"] in ("End block", "End blocks") for sb in info):
+                        cut = True
+                        break
+                    n_ = info[n_["parent"]]
+                if cut:
+                    continue
                 # runs recorded after the enclosing block ended execute no body line (rightly so)
                 n_runs = len([c_ for c_ in completes if encl_end is None or c_ <= encl_end + 1])
                 if marks_seen[bl["arg"]] < n_runs and not cancels:
